@@ -416,7 +416,21 @@ func init() {
 				jobs = append(jobs, Job{Kind: "c17", Args: mustJSON(c17Args{Msg: mi, Part: p, Parts: parts, K: k})})
 			}
 		}
-		cases, programs := 0, 0
+		// the same value spaces through the CHF's own client functions against a scripted peer (bound 1 quick, 2 thorough:
+		// every exchange is a full connection set-up in the modelled world)
+		kc, pc := 1, 2
+		if rep.Tier == "thorough" {
+			kc, pc = 2, 16
+		}
+		firstChf := len(jobs)
+		for _, side := range []string{"rating", "abmf"} {
+			for _, dir := range []string{"answer", "request"} {
+				for p := 0; p < pc; p++ {
+					jobs = append(jobs, Job{Kind: "c17chf", Args: mustJSON(c17ChfArgs{Side: side, Dir: dir, Part: p, Parts: pc, K: kc})})
+				}
+			}
+		}
+		cases, programs, chfCases := 0, 0, 0
 		rules := map[string]int{}
 		var samples []string
 		exhaustive := true
@@ -445,10 +459,16 @@ func init() {
 			for kk, v := range o.Rules {
 				rules[kk] += v
 			}
+			kind := "c17"
+			if i >= firstChf {
+				kind = "c17chf"
+				chfCases += o.Cases
+			}
 			for _, f := range o.Finds {
-				rep.Finding(f.Rule, f.Detail, map[string]any{"job": json.RawMessage(jobs[i].Args), "kind": "c17", "case": f.Detail})
+				rep.Finding(f.Rule, f.Detail, map[string]any{"job": json.RawMessage(jobs[i].Args), "kind": kind, "case": f.Detail})
 			}
 		}
+		rep.Cov["exchanges_through_the_chf_client_functions"] = chfCases
 		if len(samples) > 5 {
 			samples = samples[:5]
 		}
